@@ -56,6 +56,12 @@ func (s *Scheme) SetStoredData(d []byte) {
 func (s *Scheme) HandleMessage(msg *IncMessage) {
 	s.setupOnce.Do(s.setup)
 
+	// Topics are always SHA256 digests
+	if len(msg.Topic) != sha256.Size {
+		s.Logger.Warnf("Received message from %d with a topic of %d bytes, dropping it", msg.Source, len(msg.Topic))
+		return
+	}
+
 	switch msg.MsgType {
 	case uint8(MsgTypeSync):
 		s.handleSync(msg)
